@@ -19,7 +19,6 @@ def run(chk):
     r04a(chk)
     r04b(chk)
     r04c(chk, 'R04.c')
-    r04d(chk)
     from .c09 import r09c
 
     r09c(chk, 'R04.e')
@@ -29,6 +28,10 @@ def run(chk):
     r04i(chk, thorough=chk.tier == 'thorough')
     r04j(chk, thorough=chk.tier == 'thorough')
     r04k(chk)
+    from .c04b import r04l, r04m
+
+    r04l(chk, thorough=chk.tier == 'thorough')
+    r04m(chk, thorough=chk.tier == 'thorough')
 
 
 def _skip_calls(fn):
@@ -177,99 +180,6 @@ def _under_wellformed(m, fn, stmt, var='rule'):
             pass
         child, n = n, m.parents.get(n)
     return False
-
-
-def r04d(chk, rid='R04.d'):
-    chk.rule(rid, 'bracket counting of Base._tokensupto2: the loop counts exactly the six bracket characters by equality on the token value plus FUNCTION tokens by type; the start token is counted by the same conditions (sibling agreement); the slice ends only when all three counters are zero; EOF always ends it')
-    fn = chk.repo.fn(UTIL, 'Base._tokensupto2')
-    m = chk.repo.mod(UTIL)
-    loops = [n for n in ast.walk(fn) if isinstance(n, ast.For) and text(n.iter) == 'tokenizer']
-    if len(loops) != 1:
-        raise AnalysisError('_tokensupto2: token loop not found')
-    loop = loops[0]
-
-    def counting(stmts, valname, typnames=('typ', 'starttoken[0]')):
-        """{(char or 'FUNCTION'): (counter, +1/-1)} from an if/elif chain"""
-        out = {}
-        bad = []
-        for st in stmts:
-            cur = st if isinstance(st, ast.If) else None
-            while cur is not None:
-                augs = [x for x in cur.body if isinstance(x, ast.AugAssign) and isinstance(x.target, ast.Name) and const(x.value) == 1 and isinstance(x.op, (ast.Add, ast.Sub))]
-                if augs:
-                    a = augs[0]
-                    sign = 1 if isinstance(a.op, ast.Add) else -1
-                    conds = cur.test.values if isinstance(cur.test, ast.BoolOp) and isinstance(cur.test.op, ast.Or) else [cur.test]
-                    for c in conds:
-                        key = None
-                        if isinstance(c, ast.Compare) and len(c.ops) == 1 and isinstance(c.ops[0], ast.Eq):
-                            l, r = c.left, c.comparators[0]
-                            for x, y in ((l, r), (r, l)):
-                                if isinstance(x, ast.Constant) and isinstance(x.value, str) and text(y) == valname:
-                                    key = x.value
-                                if text(x).endswith('_prods.FUNCTION') and text(y) in typnames:
-                                    key = 'FUNCTION'
-                        if key is None:
-                            bad.append(text(c))
-                        else:
-                            out[key] = (text(a.target), sign)
-                cur = cur.orelse[0] if len(cur.orelse) == 1 and isinstance(cur.orelse[0], ast.If) else None
-        return out, bad
-
-    # names of the token's type and value inside the loop: the unpacking of `token`
-    unp = [st for st in loop.body if isinstance(st, ast.Assign) and isinstance(st.targets[0], ast.Tuple) and text(st.value) == text(loop.target) and len(st.targets[0].elts) == 4]
-    typname, valname = (text(unp[0].targets[0].elts[0]), text(unp[0].targets[0].elts[1])) if unp else ('typ', 'val')
-    table, bad = counting(loop.body, valname, (typname, 'starttoken[0]'))
-    # the counters are whatever names the chain increments; what is prescribed is the pairing
-    groups = (('{', '}', None), ('[', ']', None), ('(', ')', 'FUNCTION'))
-    names = {}
-    for o, c, f in groups:
-        if o not in table or table[o][1] != 1:
-            chk.ob(rid, UTIL, 'Base._tokensupto2', f'loop: {o!r} increments a bracket counter', False, f'found {table.get(o)}')
-            continue
-        names[o] = table[o][0]
-    if len(set(names.values())) != len(names):
-        chk.ob(rid, UTIL, 'Base._tokensupto2', 'braces, brackets and parentheses have separate counters', False, str(names))
-    want = {}
-    for o, c, f in groups:
-        ctr = names.get(o, '?')
-        want[o] = (ctr, 1)
-        want[c] = (ctr, -1)
-        if f:
-            want[f] = (ctr, 1)
-    chk.ob(rid, UTIL, 'Base._tokensupto2', 'brackets are recognised by equality of the token value (or the FUNCTION type) only', not bad,
-           f'other predicates: {bad} - a token that merely contains a bracket (an escaped "\\(" at the end of an identifier) is counted')
-    for k, v in want.items():
-        chk.ob(rid, UTIL, 'Base._tokensupto2', f'loop: {k!r} changes the counter of {[g[0] for g in groups if k in g][0]!r} by {v[1]:+d}', table.get(k) == v, f'found {table.get(k)}')
-    extra = set(table) - set(want)
-    chk.ob(rid, UTIL, 'Base._tokensupto2', 'no other token changes a counter', not extra, str(sorted(extra)))
-    # start token block
-    starts = [n for n in ast.walk(fn) if isinstance(n, ast.If) and text(n.test) == 'starttoken' and any(isinstance(x, ast.Call) and isinstance(x.func, ast.Attribute) and x.func.attr == 'append' and x.args and text(x.args[0]) == 'starttoken' for x in ast.walk(n))]
-    if len(starts) != 1:
-        raise AnalysisError('_tokensupto2: start token block not found')
-    sval = [text(st.targets[0]) for st in starts[0].body if isinstance(st, ast.Assign) and text(st.value) == 'starttoken[1]']
-    stable_, sbad = counting(starts[0].body, sval[0] if sval else 'val')
-    for k in ('{', '[', '(', 'FUNCTION'):
-        chk.ob(rid, UTIL, 'Base._tokensupto2', f'start token: {k!r} is counted like in the loop', stable_.get(k) == want[k],
-               f'found {stable_.get(k)}: a statement that starts with this token never sees its counter return to zero')
-    # end condition
-    ctrs = sorted(set(names.values()))
-
-    def all_zero(test):
-        """Does (a conjunct of) the test require every counter to be zero?"""
-        for c in ast.walk(test):
-            if isinstance(c, ast.Compare) and all(isinstance(o, ast.Eq) for o in c.ops):
-                terms = [text(x) for x in [c.left] + c.comparators]
-                if '0' in terms and set(ctrs) <= set(terms):
-                    return True
-        conj = [text(x) for x in ast.walk(test) if isinstance(x, ast.Compare) and len(x.ops) == 1 and isinstance(x.ops[0], ast.Eq) and const(x.comparators[0]) == 0]
-        return all(any(t.startswith(c + ' ') for t in conj) for c in ctrs)
-
-    ends = [n for n in ast.walk(loop) if isinstance(n, ast.If) and len(ctrs) == 3 and all_zero(n.test) and any(isinstance(x, ast.Break) for x in n.body)]
-    chk.ob(rid, UTIL, 'Base._tokensupto2', 'the slice ends only with all counters at zero', len(ends) == 1, f'{len(ends)} end tests')
-    eof = [n for n in loop.body if isinstance(n, ast.If) and ("'EOF' == typ" in text(n.test) or "typ == 'EOF'" in text(n.test)) and any(isinstance(x, ast.Break) for x in n.body)]
-    ok = bool(eof) and loop.body.index(eof[0]) <= 1
-    chk.ob(rid, UTIL, 'Base._tokensupto2', 'EOF ends the slice before anything else is looked at', ok, 'an EOF token inside a skipped construct would be consumed')
 
 
 def r04f(chk, rid='R04.f'):
